@@ -16,7 +16,7 @@ pub fn run(args: &[String]) -> i32 {
         tr.ev(json!({"ev": "Reset", "run": bi}));
         let sc = Scenario { ops: rest, fill_busy: cfg["fill_busy"].as_u64().unwrap_or(0) as usize, fill_idle: cfg["fill_idle"].as_u64().unwrap_or(0) as usize, fill_expired: cfg["fill_expired"].as_u64().unwrap_or(0) as usize, with_fabric: cfg["fabric"].as_bool().unwrap_or(false), second_fabric: cfg["second_fabric"].as_bool().unwrap_or(false),
                             foreign2: cfg["foreign2"].as_bool().unwrap_or(false), wrong_ipk2: cfg["wrong_ipk2"].as_bool().unwrap_or(false), stall_ms: cfg["stall_ms"].as_u64().unwrap_or(0),
-                            validity2: match cfg["validity2"].as_str() { Some("expired") => "expired", Some("notyet") => "notyet", _ => "" } };
+                            validity2: match cfg["validity2"].as_str() { Some("expired") => "expired", Some("notyet") => "notyet", Some("forged") => "forged", _ => "" } };
         let end = run_scenario(&sc, &mut tr);
         *ends.entry(format!("{:?}", end)).or_default() += 1;
     }
